@@ -41,21 +41,26 @@ def main(tier, args):
                    "boundary and trigger x tz -12h..+14h step 15 min x %s through the real activeTimer() under a virtual wall clock; "
                    "one-shot = every second of 2 days x 9 boundary seconds-of-day + every second-of-day x boundary instants + all tz; workday = all calendars with <=3 special days in a "
                    "10-day window x 4 (thorough 6) week masks + single matching day 1..400 days ahead; cron = shapes 's m h * * *', 's m h * * d', 's m h D M *' with extreme field values, plus "
-                   "%d expressions with lists, ranges, steps, month/weekday names, '?', 7 = Sunday and day-of-month AND day-of-week whose value sets are written out by hand (harness has no cron parser; "
+                   "%d expressions with lists, ranges, steps, month/weekday names (upper, lower and mixed case), '*/10' in day-of-month, '?', 7 = Sunday and day-of-month AND day-of-week whose value sets are written out by hand (harness has no cron parser; "
                    "reference = day scan over the sets, all (h, m, s) combinations inside a matching day) x dense boundary instants (+-2 s around up to 14 triggers of the day) over 7 windows and per-day "
                    "probes over 5+5 years; the `now` values are NOT monotonic (windows jump backwards), so a result remembered from an earlier call shows; oracle = independent day-scan reference "
                    "(own civil calendar), result strictly after now, armed delay >= wall distance. (2) firing: BFS over histories of {enable, disable, refresh, pass, skew monotonic +5 ms, wall +-1 h, "
-                   "toggle the explicit time zone by -180 min, initialize() again with the same configuration, cleanup() (then enable must fail until initialize) [these three not on the %d far-target configurations], advance to half/T-5ms/T/T+1s, and on the three "
+                   "toggle the explicit time zone by -180 min, initialize() again with the same configuration, cleanup() (at most once, thorough twice; then enable must fail until initialize), initialize() with INVALID arguments (seconds-of-day -1/86400, mask of 6/8 characters, null calendar, combined with otherwise different values: must be refused and leave the alarm as configured; not for cron alarms, see assumptions) [these four not on the %d far-target configurations; wall steps and zone toggles: two per history, one on the plain calendar configurations where steps + calendar ops are two in total, none on start-5ms-before / empty-mask / cron-every-30min / workday-holidays / callback variants of calendar configurations], advance to half/T-5ms/T/T+1s, and on the "
                    "calendar configurations: next matching day stops matching / tomorrow starts matching / special days cleared} depth<=%d on %d weekly/one-shot/cron/workday configurations "
-                   "(targets 40/50/60/100/400 days ahead, a two-instants-per-day cron list, and 9 configurations whose CALLBACK itself calls enable() / refresh() / disable() / initialize()+enable() on its "
-                   "alarm) under virtual wall + monotonic clocks; state = full alarm (incl. the last-fired record, zone, calendar subscriptions) + timer + loop-timer record + model; oracle = one callback "
+                   "(targets 40/50/60/100/400 days ahead, a two-instants-per-day cron list, two repeating alarms that RUN OUT of instants at a fire (workday calendar with one matching day, cron 29 Feb 2096 with the next "
+                   "one beyond the 4-year horizon: must end up stopped, calendar update + enable revives), and 14 configurations whose CALLBACK itself calls enable() / refresh() / disable() / initialize()+enable() / "
+                   "cleanup() (which destroys the running callback object) / a calendar update / setTimezone()+refresh() on its alarm) under virtual wall + monotonic clocks, the wall clock standing at a non-zero microsecond (0/1/499/500/501/700/999 us past the millisecond) and every armed delay judged in microseconds; the process time zone "
+                   "of all executables is a DST zone far from UTC (TZ=XXX-5:45YYY,M3.2.0,M11.1.0) while every alarm sets its zone explicitly; state = full alarm (incl. the last-fired record, zone, calendar subscriptions) + the configuration fields as the implementation holds them + timer + loop-timer record + model; oracle = one callback "
                    "per matching instant, never two (arming again for an instant whose callback already ran is reported at once), none while disabled or after cleanup, one-shot once per enable, armed "
                    "delay (TimerEvent interval and loop timer record, read inside the callback for re-arms made there) >= wall distance at arming, armed target = earliest matching instant under the zone "
                    "and calendar in force. (3) calendar lane: BFS (depth 6, thorough 8) over enable/disable/refresh of three WorkdayAlarms sharing one WorkdayCalendar and updates of its special days / "
                    "week mask: every enabled alarm must be armed for the earliest matching instant under the calendar in force, its TimerEvent interval and loop timer record >= the wall distance, exactly "
                    "one loop timer record per enabled alarm and none for a disabled one"
                    % ("{1,23296,43200,86398} and 12 more values on a stride-7 grid" if quick else "every 10-minute value, every hour +-1 and 16 boundary values at every second", "seconds-of-day {0,1,43200,86398,86399} x 40 masks (all with <=2 or >=6 days set + 3 patterns)" if quick else "16 boundary seconds-of-day x all 128 masks", NSETS, NFAR, depth, len(FIRE)),
-              assumptions=["cron: day-of-month and day-of-week both restricted is read as a conjunction (what ccronexpr implements); %d expressions left out by C20_CRON_KNOWN_DEFECTS=0 "
+              assumptions=["defect candidates on the unchanged tree, kept behind default-off switches: C20_CRON_LEADING_ZERO=1 (cron numbers with a leading zero: '0 30 08 * * *' is rejected, "
+                           "'0 0 010 * * *' means 08:00 - strtol base 0 in ccronexpr parse_uint) and C20_CRON_REJECTED_INIT=1 (CronAlarm: initialize(valid) then initialize(invalid) returns false but "
+                           "leaves a partial expression that enable() arms)",
+                           "cron: day-of-month and day-of-week both restricted is read as a conjunction (what ccronexpr implements); %d expressions left out by C20_CRON_KNOWN_DEFECTS=0 "
                            "(default: none left out; the 8 expressions that exposed the ccronexpr defects 'lower field kept after a roll-over', 'same day number in a later month', "
                            "'day 29..31 overflows when the month is set' are evaluated)" % NDEFECT,
                            "initialize() with the SAME configuration keeps what already fired (a 5 ms early wake-up followed by disable/initialize/enable must not fire the same instant again); "
